@@ -400,6 +400,43 @@ class X86Model(object):
             raise AnalysisError('_dis MMX/SSE memory-size table for %s is outside the evaluable subset: %s' % (name, e))
         return modr[self.afs.size]
 
+    def dis_rmr_pre(self, modifs, c):
+        """ModRM byte as the reg,r/m branch of _dis hands it to get_afs (statements between `c = ord(bin.readbs())`
+        and the get_afs call, evaluated), or 'rejected' when they return None."""
+        from .srcmodel import walk_no_nested, parent
+        from .consteval import _Return
+        if getattr(self, '_rmr_pre', None) is None:
+            dis = self.arch.method('x86_mn', '_dis')
+            chain = self._dis_mmx_nodes()[0]
+            blk = parent(chain).body
+            i0 = None
+            for i, st in enumerate(blk):
+                if isinstance(st, ast.Assign) and u(st.targets[0]) == 'c' and 'bin.readbs' in u(st.value) and i > blk.index(chain):
+                    i0 = i
+            if i0 is None:
+                raise AnalysisError('_dis: ModRM byte read of the reg,r/m branch not found')
+            pre = []
+            for st in blk[i0 + 1:]:
+                if isinstance(st, ast.Assign) and 'get_afs' in u(st.value):
+                    break
+                pre.append(st)
+            else:
+                raise AnalysisError('_dis: get_afs call of the reg,r/m branch not found')
+            self._rmr_pre = pre
+        m_ = Obj('m')
+        m_.modifs = dict(modifs)
+        scope = dict((k, v) for k, v in self.env.items() if isinstance(v, (str, int, bool, list, tuple, dict)) or v is None)
+        scope.update({'m': m_, 'c': c, 'x86_afs': self.afs})
+        ev = Evaluator({})
+        ev.env = scope
+        try:
+            ev.exec_stmts(self._rmr_pre, scope)
+        except _Return:
+            return 'rejected'
+        except NotConst as e:
+            raise AnalysisError('_dis: ModRM pre-processing is outside the evaluable subset: %s' % e)
+        return scope['c']
+
     def dis_digit_reg_rejected(self, modifs, dibs):
         """Does the /digit branch of _dis return None for a register (mod == 3) r/m operand of this row variant?
         The guards `if <cond>: return None` of that branch are evaluated with modr = {ad: False}."""
